@@ -672,7 +672,7 @@ def _mentions(e, owner, defs, depth=0):
     return False
 
 
-def rule_h1(ctx):
+def rule_h1(ctx, scope=None):
     r = ctx.r
     r.rule("H1", "no sum/difference a +- b of raw homogeneous "
                  "representatives (.proj_data) of two distinct objects unless "
@@ -682,6 +682,8 @@ def rule_h1(ctx):
     n_bad = 0
     for f in ctx.p.all_functions:
         if f.module is not m or f.parent is not None:
+            continue
+        if scope is not None and f not in scope:
             continue
         defs = single_defs(f.node)
         for n in ast.walk(f.node):
